@@ -144,6 +144,7 @@ static void reader_step(const item_t *it) {
 	int id = (int)item_get(it, "id", 0) % RB_READERS;
 	rd *r = &RD[id];
 	size_t drop = 0, drop2 = 0, got = 0, avail, nio, total = 0, lim, iovn;
+	int unlimited;
 	size_t round_before;
 	if (!r->inited || item_get(it, "reinit", 0)) {
 		size_t back = (size_t)item_get(it, "back", 0);
@@ -169,7 +170,9 @@ static void reader_step(const item_t *it) {
 		if (sim_violated()) return;
 	}
 	/* full read: huge limit, ample iovec */
-	lim = item_get(it, "lim", 0) ? (size_t)item_get(it, "lim", 0) : ((size_t)1 << 40);
+	/* "everything": a huge limit - or the largest value there is (arithmetic on it must not wrap) */
+	lim = item_get(it, "lim", 0) ? (size_t)item_get(it, "lim", 0) : (item_get(it, "maxlim", 0) ? SIZE_MAX : ((size_t)1 << 40));
+	unlimited = !item_get(it, "lim", 0);
 	round_before = r->rpos.round_num;
 	g_kf_pre = g_kf_pre || kf_precondition(&r->rpos);
 	iovn = item_get(it, "iovn", 0) ? (size_t)item_get(it, "iovn", 0) : IOVN - 8;
@@ -186,11 +189,11 @@ static void reader_step(const item_t *it) {
 		total += g_iov[i].iov_len;
 	}
 	if (nio > 0 && got != total) { sim_violation("rb-reader", "reader %d: r_buf_data_get reports %zu bytes but the regions add up to %zu", id, got, total); return; }
-	if (lim == ((size_t)1 << 40) && !item_get(it, "iovn", 0) && !drop && !drop2 && nio > 0 && avail != total) {
+	if (unlimited && !item_get(it, "iovn", 0) && !drop && !drop2 && nio > 0 && avail != total) {
 		reader_fail_or_known(r, id, round_before, GAP, "rb-avail", "reader %d: available-size query said %zu but a full read returned %zu bytes", id, avail, total);
 		if (sim_violated()) return;
 	}
-	if (lim == ((size_t)1 << 40) && !drop && !drop2 && (nio == 0 || total == 0) && avail > 0 && !(g_variable && g_kf_pre)) {
+	if (unlimited && !item_get(it, "iovn", 0) && !drop && !drop2 && (nio == 0 || total == 0) && avail > 0 && !(g_variable && g_kf_pre)) {
 		sim_violation("rb-avail", "reader %d: available-size query said %zu but a full read returned nothing", id, avail);
 		return;
 	}
@@ -316,6 +319,7 @@ static void c19_gen(plan_t *p, rng_t *r, int tier) {
 			if (rng_chance(r, 60)) { item_set(&op->it, "reinit", 1); item_set(&op->it, "back", (long long)rng_below(r, (uint64_t)size * 2)); continue; }
 			if (rng_chance(r, 250)) item_set(&op->it, "lim", 1 + (long long)rng_below(r, (uint64_t)size + 8));
 			if (rng_chance(r, 180)) item_set(&op->it, "iovn", 1 + (long long)rng_below(r, 4));
+			item_set(&op->it, "maxlim", rng_chance(r, 400));
 			item_set(&op->it, "adv", rng_chance(r, 550) ? 0 : 1 + (long long)rng_below(r, 3));
 			item_set(&op->it, "advn", (long long)rng_below(r, 1u << 20));
 			item_set(&op->it, "back", rng_chance(r, 500) ? 0 : (long long)rng_below(r, (uint64_t)size));
